@@ -146,4 +146,30 @@ theorem shiftPart_colAbs (c r : Nat) (dCol dRow : Int)
   simp [Impl.okOr, colName_ofInt (show (1 : Int) ≤ (c : Int) by omega) (show (c : Int) ≤ Facts.MaxColumns by omega),
     itoaInt_nat hr1', Spec.render, Spec.renderCol, Spec.renderRow, Spec.dollarIf]
 
+/-! ### data-validation formulas: the XML escaping round trip -/
+
+theorem unescapeXML_cons_ne (c : Char) (cs : Str) (h : c ≠ '&') :
+    Impl.unescapeXML (c :: cs) = c :: Impl.unescapeXML cs := by
+  rw [Impl.unescapeXML.eq_def]
+  split
+  · contradiction
+  · rename_i heq; simp only [List.cons.injEq] at heq; exact absurd heq.1 h
+  · rename_i heq; simp only [List.cons.injEq] at heq; exact absurd heq.1 h
+  · rename_i heq; simp only [List.cons.injEq] at heq; exact absurd heq.1 h
+  · rename_i heq; simp only [List.cons.injEq] at heq; obtain ⟨rfl, rfl⟩ := heq; rfl
+
+theorem unescape_escape (s : Str) : Impl.unescapeXML (Impl.escapeXML s) = s := by
+  induction s with
+  | nil => rfl
+  | cons c cs ih =>
+    unfold Impl.escapeXML
+    by_cases h1 : c = '&'
+    · subst h1; simp [Impl.unescapeXML, ih]
+    · by_cases h2 : c = '<'
+      · subst h2; simp [Impl.unescapeXML, ih]
+      · by_cases h3 : c = '>'
+        · subst h3; simp [Impl.unescapeXML, ih]
+        · simp only [h1, h2, h3, if_false]
+          rw [unescapeXML_cons_ne c _ h1, ih]
+
 end XlModel.FormulaRef
